@@ -46,14 +46,15 @@ DEF = dict(Mode='"cli"', Emit='FALSE', MaxMain=2, MaxInc=0, MainSel=[1, 25],
            ListFirstWins='FALSE', NegNoop='FALSE', SpliceLeaks='FALSE',
            NegSticky='FALSE', NoneUnset='FALSE', ValSel=[], ShapeSel=[1],
            GenSel=[], PreSel=[0], CanonSel=[0], ExecAlways='FALSE',
-           ExpSel=[], ExpandOrder='"single"', MaxLex=3,
+           ExpSel=[], ExpandOrder='"single"', MaxLex=3, SpellSel=[],
+           RawFirstWordGate='FALSE',
            HashCutsWord='FALSE',
            FinalShortCut='FALSE')
 
 CLI_ALL = list(range(1, 46))
 INVS = {'cli': ['FirstWins', 'Accumulates', 'IncludeInPlace',
                 'IncludeRestores', 'SecondPassOrderFree', 'ExecGuarded',
-                'NoRescan'],
+                'NoRescan', 'SpellingInvariant'],
         'srv': ['NoUnsafeExpansion', 'NoRescan'],
         'lex': ['HashIsAWordCharacter', 'QuotesMustBalance']}
 DEFECTS = {1: 'second_pass_restarts', 2: 'expansion_per_file',
@@ -147,6 +148,13 @@ def plan(ctx):
         # =, x, #, ", ', backslash} for a single-valued, a list, a
         # rest-of-line option and Host; leading blanks, CRLF, trailing blanks
         ('lex', 'lex', dict(MaxLex=5, **smp(8 if q else 1))),
+        # spelling of EVERY directive, block-opening ones included (K v, K=v,
+        # K = v, K= v, K =v, tab, blanks, case, quoted) x the context the line
+        # stands in (top, after a matching / non-matching block, after an
+        # Include) x leading / trailing blanks, CR LF, comment and empty
+        # lines, last line without newline
+        ('spell', 'cli', dict(SpellSel=[1, 2, 3, 4], TgtSel=[1, 2],
+                              **smp(2 if q else 1))),
         ('gensrv', 'srv', dict(GenSel=[4], PreSel=[0, 52],
                                TgtSel=[1, 2, 3, 9, 12])),
         # value classes: the same option twice (every ordered pair of: ordinary
@@ -195,6 +203,8 @@ SENSITIVITY = [
                                ExpandOrder='"envtok"'), 'NoRescan'),
     ('hashcuts', 'lex', dict(MaxLex=3, HashCutsWord='TRUE'),
      'HashIsAWordCharacter'),
+    ('rawgate', 'cli', dict(SpellSel=[3, 4], TgtSel=[1, 2],
+                            RawFirstWordGate='TRUE'), 'SpellingInvariant'),
     ('splice', 'cli', dict(MaxMain=3, MaxInc=2, MainSel=[43, 25, 26],
                            IncSel=[2, 25, 5], SpliceLeaks='TRUE'),
      'IncludeRestores'),
@@ -275,10 +285,11 @@ class Replayer:
         return best
 
     def cli(self, rec):
-        _, main, a, b, ti, p1, pr, alts1, alts, x, is_exp = rec
+        _, main, a, b, ti, p1, pr, alts1, alts, x, is_exp, ms = rec
         cd, menu, world = self.cd, self.menu, self.world
         self.n += 1
-        world.write(menu, main, a, b, x)
+        variant = self.n * 7 + self.ctx.seed
+        world.write(menu, main, a, b, x, ms, variant)
         target = menu.targets[ti - 1]
         prog = (main, a, b)
         names = menu.names(prog)
@@ -360,7 +371,8 @@ class Replayer:
         else:
             if cd.ssh_applicable(menu, prog, target, is_exp):
                 (self.second_val if x or names & set(cd.TYPED)
-                 or is_exp else self.second).append((main, a, b, ti, exp, x))
+                 or is_exp or ms else self.second).append(
+                     (main, a, b, ti, exp, x, ms, variant))
 
     def srv(self, rec):
         _, main, a, b, ui, unsafe, pr, alts, rawakf, x, typed = rec
@@ -483,12 +495,13 @@ def second_opinion(ctx, cd, menu, cases, root, limit, label):
     step = max(1, len(cases) // limit)
     todo = cases[::step][:limit]
     agree = differ = failed = 0
+    unanswered = []
 
     def one(i):
-        main, a, b, ti, exp, x = todo[i]
+        main, a, b, ti, exp, x, ms, variant = todo[i]
         w = cd.World(os.path.join(root, f'so{i % 8}_{i}'))
         try:
-            w.write(menu, main, a, b, x)
+            w.write(menu, main, a, b, x, ms, variant)
             return (cd.ssh_G(w, menu.targets[ti - 1], str(i)), exp,
                     w.texts(), menu.targets[ti - 1],
                     menu.names((main, a, b)))
@@ -498,6 +511,8 @@ def second_opinion(ctx, cd, menu, cases, root, limit, label):
         for so, exp, texts, target, names in ex.map(one, range(len(todo))):
             if not isinstance(so, list):
                 failed += 1
+                if len(unanswered) < 4:
+                    unanswered.append(f'{texts.get("config")}: {so}')
                 continue
             if cd.ssh_agrees(so, exp, exp[5] != ['-'], names):
                 agree += 1
@@ -505,6 +520,9 @@ def second_opinion(ctx, cd, menu, cases, root, limit, label):
                 differ += 1
                 ctx.divergence(f'second opinion: ssh -G gives {so}, the '
                                f'specification {exp}: {texts} {target}')
+    if unanswered:
+        ctx.notes.append(f'ssh -G gave no answer ({label}), e.g.: ' +
+                         ' | '.join(unanswered)[:900])
     ctx.notes.append(f'ssh -G second opinion ({label}): {agree} agree, {differ} differ, '
                      f'{failed} not answered (of {len(todo)} sampled cases)')
 
@@ -915,6 +933,15 @@ def _main(ctx, cd, root):
         'first-value-wins fields each (a later line can fill the field the '
         'first line left open); the rule here is first obtained LINE wins, '
         'as asyncssh does; those mixed pairs are not compared with ssh -G',
+        'spelling: every directive, block-opening ones included, is written '
+        'as K v / K=v / K = v / K= v / K =v / tab / several blanks / lower / '
+        'upper case / quoted words, in every context (top of file, after a '
+        'matching block, after a non-matching block, after an Include), with '
+        'leading and trailing blanks, CR LF, comment and empty lines in '
+        'between and a last line without newline; the model reads the '
+        'abstract program (SpellingInvariant), ssh -G reads the same file; '
+        'trailing "# comment" forms are not in the judged set (see the '
+        'lexical observations)',
         'lexical layer: the model is the pinned tree (line.strip(), POSIX '
         'shlex without comments, then the = spellings; RemoteCommand / '
         'ProxyCommand take the rest of the line verbatim); ssh cuts some '
